@@ -52,8 +52,8 @@ theorem Res.unique {α} (F : Nat → Res α) (h : ∀ f, (F f).le (F (f+1))) (f 
 
 /-- structural descent through a model definition: both sides have the same shape and differ in fuel only -/
 macro "mono" : tactic => `(tactic| repeat' (first
-  | exact Res.le_refl _
-  | exact Res.oof_le _
+  | with_reducible exact Res.le_refl _
+  | with_reducible exact Res.oof_le _
   | (apply_assumption; done)
   | refine Res.le_bind ?_ (fun _ => ?_)
   | refine Res.le_ite (fun _ => ?_) (fun _ => ?_)
